@@ -277,3 +277,50 @@ package server
 //@ loop 0 modifies fc.term, fc.closeStreamWg, fresh
 //@ ensures old(fc.term) != -1 ==> fc.term == old(fc.term)
 //@ modifies fc.term, fc.closeStreamWg
+
+// ---------------------------------------------------------------- leader controller (C04)
+
+//@ func leaderController.isClosed
+//@ trusted
+//@ pure
+//@ nondet
+
+//@ func leaderController.setLogger
+//@ trusted
+//@ modifies lc.log
+//@ ensures lc.log != nil
+
+//@ func QuorumAckTracker.Close
+//@ trusted
+//@ modifies fields(quorumAckTracker)
+
+//@ func FollowerCursor.Close
+//@ trusted
+//@ modifies fields(followerCursor)
+
+//@ func SessionManager.Close
+//@ trusted
+//@ modifies fields(sessionManager), fields(session)
+
+// NewTerm on the node that may be leader: the term never decreases; a request for a
+// lower term, or a repeated request for the current term after the node left the fenced
+// state, fails and changes nothing; the new term is stored in the database before it
+// is published; on success the node is FENCED in exactly the requested term and has
+// dropped its quorum tracker and follower cursors (nothing can be acknowledged or
+// committed any more on behalf of the old term).
+//
+//@ func leaderController.NewTerm(lc, req) (res, err)
+//@ property C04 C05
+//@ requires req != nil && lc.db != nil && lc.wal != nil && lc.log != nil && lc.ctx != nil && lc.sessionManager != nil && lc.headOffsetGauge != nil && lc.commitOffsetGauge != nil
+//@ requires forall k string :: inmap(lc.followers, k) ==> lc.followers[k] != nil
+//@ requires forall k string :: inmap(lc.followerAckOffsetGauges, k) ==> lc.followerAckOffsetGauges[k] != nil
+//@ assert at call setLogger#0: ghost(dbTerm, lc.db) == req.Term && lc.term == req.Term
+//@ loop 0 modifies fields(followerCursor), fresh
+//@ loop 0 invariant lc.term == req.Term && lc.status == 1 && lc.quorumAckTracker == nil && ghost(dbTerm, lc.db) == req.Term
+//@ loop 1 modifies fresh
+//@ loop 1 invariant lc.term == req.Term && lc.status == 1 && lc.quorumAckTracker == nil && ghost(dbTerm, lc.db) == req.Term
+//@ ensures lc.term >= old(lc.term)
+//@ ensures (req.Term < old(lc.term) || (req.Term == old(lc.term) && old(lc.status) != 1)) ==> err != nil && lc.term == old(lc.term) && lc.status == old(lc.status) && lc.quorumAckTracker == old(lc.quorumAckTracker)
+//@ ensures err == nil ==> res != nil && lc.term == req.Term && lc.status == 1 && lc.quorumAckTracker == nil && lc.followers == nil
+//@ ensures lc.term != old(lc.term) ==> lc.term == req.Term && ghost(dbTerm, lc.db) == req.Term
+//@ modifies *
